@@ -178,11 +178,23 @@ pub enum BOp {
     Import(usize),
     /// ext_inst whose set operand is the id returned by the most recent Import (not enabled before any import)
     ExtInstVia,
+    /// generated type method `site` with its base arguments, except that the k-th plain id parameter is the result id of
+    /// the MOST RECENT OpConstant of the module (not enabled without one / without such a parameter)
+    TypeCallRef(usize, usize),
+    /// start over from Builder::new_from_module(hand-built module, bound 500) whose only instruction is the declaration
+    /// type method `site` would make for its base arguments, but WITHOUT a result id
+    AdoptWithoutId(usize),
+    /// begin_function with an EXPLICIT result id (two functions may then carry the same id)
+    BeginFunctionId(u32),
+    /// decorate(<result id of the k-th function>, LinkageAttributes, "f", Import): a module-level annotation whose
+    /// target is the function (not enabled when there is no k-th function)
+    DecorateFunction(usize),
 }
 
 pub fn op_str(o: &BOp) -> String {
     match o {
         BOp::TypeCall(s, e, v) => format!("{}({:?},v{})", type_calls()[*s].name, e, v),
+        BOp::TypeCallRef(s, k) => format!("{}(id-param {} := last constant)", type_calls()[*s].name, k),
         other => format!("{:?}", other),
     }
 }
@@ -382,6 +394,44 @@ pub fn replay(h: &[BOp]) -> Replay {
                     }
                     expected_inst = Some(type_call_inst(site, &a, ret_id));
                 }
+                BOp::AdoptWithoutId(si) => {
+                    let site = &type_calls()[*si];
+                    let a = type_call_args(site, None, 0);
+                    let decl = type_call_inst(site, &a, None);
+                    let Some(d) = model::to_dr(&decl) else {
+                        disabled = true;
+                        break 'steps;
+                    };
+                    let mut m = dr::Module::new();
+                    m.header = Some(dr::ModuleHeader::new(500));
+                    m.types_global_values.push(d);
+                    b = Builder::new_from_module(m);
+                    sel = (None, None);
+                    next_lo = 500;
+                    next_hi = 500;
+                    cur = snap(b.module_ref());
+                    fresh_seen.clear();
+                    continue 'steps;
+                }
+                BOp::TypeCallRef(si, k) => {
+                    let site = &type_calls()[*si];
+                    let pos: Vec<usize> = site.params.iter().enumerate().filter(|(_, p)| p.ty == Ty::Word && !is_result_id_param(p)).map(|(i, _)| i).collect();
+                    let last_const = cur.secs[10].iter().rev().find(|i| i.name() == "Constant").and_then(|i| i.rid);
+                    let (Some(&pi), Some(cid)) = (pos.get(*k), last_const) else {
+                        disabled = true;
+                        break 'steps;
+                    };
+                    let mut a = type_call_args(site, None, 0);
+                    a.word_override = Some((pi, cid));
+                    match (site.call)(&mut b, &a) {
+                        Out::Word(w) => {
+                            ret_id = Some(w);
+                            ok = true
+                        }
+                        _ => unreachable!("type methods return spirv::Word"),
+                    }
+                    expected_inst = Some(type_call_inst(site, &a, ret_id));
+                }
                 BOp::TypePointer(e, v) => {
                     explicit = e.is_some();
                     let sc = if v % 2 == 0 { spirv::StorageClass::Function } else { spirv::StorageClass::Uniform };
@@ -390,6 +440,18 @@ pub fn replay(h: &[BOp]) -> Replay {
                     ret_id = Some(id);
                     ok = true;
                     expected_inst = Some(inst("TypePointer", None, Some(id), vec![Arg::Enum("StorageClass", sc as u32), Arg::IdRef(pointee)]));
+                }
+                BOp::BeginFunctionId(id) => {
+                    explicit = true;
+                    ok = res_word!(b.begin_function(RT, Some(*id), spirv::FunctionControl::NONE, RT + 1))
+                }
+                BOp::DecorateFunction(k) => {
+                    let Some(fid) = cur.fns.get(*k).and_then(|f| f.def.as_ref()).and_then(|d| d.rid) else {
+                        disabled = true;
+                        break 'steps;
+                    };
+                    b.decorate(fid, spirv::Decoration::LinkageAttributes, vec![dr::Operand::LiteralString("f".into()), dr::Operand::LinkageType(spirv::LinkageType::Import)]);
+                    ok = true;
                 }
                 BOp::Import(k) => {
                     ret_id = Some(b.ext_inst_import(["GLSL.std.450", "NonSemantic.DebugPrintf"][*k]));
@@ -435,10 +497,8 @@ pub fn replay(h: &[BOp]) -> Replay {
                         use rspirv::binary::Assemble;
                         match dr::load_words(m.assemble()) {
                             Ok(m2) => {
-                                if snap(&m2) != snap(&m) {
-                                    viol = Some(("reload-differs".into(), format!("step {} Reload: the loaded module {} differs from the built one {}", step, snap(&m2).brief(), snap(&m).brief())));
-                                    break 'steps;
-                                }
+                                // (whether the loaded module equals the built one is C06's business; building simply
+                                //  goes on from what the loader produced)
                                 m2
                             }
                             Err(_) => {
@@ -483,14 +543,20 @@ pub fn replay(h: &[BOp]) -> Replay {
                 n
             };
             let pred: Pred = match op {
-                BOp::BeginFunction => {
+                BOp::DecorateFunction(k) => {
+                    let mut n = cur.clone();
+                    let fid = cur.fns[*k].def.as_ref().unwrap().rid.unwrap();
+                    n.secs[9].push(inst("Decorate", None, None, vec![Arg::IdRef(fid), Arg::Enum("Decoration", 41), Arg::Str("f".into()), Arg::Enum("LinkageType", 1)]));
+                    Pred::Ok { snap: n, sel, fresh: None }
+                }
+                BOp::BeginFunction | BOp::BeginFunctionId(_) => {
                     if sf.is_some() {
                         Pred::Fail
                     } else {
                         let mut n = cur.clone();
                         n.fns.push(FnS { def: Some(inst("Function", Some(RT), ret_id, vec![Arg::Mask("FunctionControl", 0), Arg::IdRef(RT + 1)])), params: vec![], blocks: vec![], end: None });
                         let l = n.fns.len() - 1;
-                        Pred::Ok { snap: n, sel: (Some(l), sb), fresh: ret_id }
+                        Pred::Ok { snap: n, sel: (Some(l), sb), fresh: if explicit { None } else { ret_id } }
                     }
                 }
                 BOp::EndFunction => {
@@ -589,7 +655,7 @@ pub fn replay(h: &[BOp]) -> Replay {
                     n.version = Some(0x0001_0400);
                     Pred::Ok { snap: n, sel, fresh: None }
                 }
-                BOp::TypeVoid | BOp::TypeCall(..) | BOp::TypePointer(..) => {
+                BOp::TypeVoid | BOp::TypeCall(..) | BOp::TypeCallRef(..) | BOp::TypePointer(..) => {
                     let want = expected_inst.clone().unwrap_or_else(|| inst("TypeVoid", None, ret_id, vec![]));
                     let equal_earlier: Vec<u32> = cur.secs[10].iter().filter(|d| d.rid.is_some() && d.opcode == want.opcode && d.args == want.args).map(|d| d.rid.unwrap()).collect();
                     if explicit {
@@ -641,7 +707,7 @@ pub fn replay(h: &[BOp]) -> Replay {
                     }
                 }
                 BOp::FindReturnBlocks => Pred::Ok { snap: cur.clone(), sel, fresh: None },
-                BOp::Continue | BOp::Reload => unreachable!(),
+                BOp::Continue | BOp::Reload | BOp::AdoptWithoutId(_) => unreachable!(),
             };
             let _ = &mut append_block;
             // ---- compare
@@ -782,7 +848,7 @@ fn variant_name(o: &BOp) -> String {
 
 fn why_fail(o: &BOp, sel: (Option<usize>, Option<usize>)) -> String {
     match o {
-        BOp::BeginFunction => format!("a function is open (selection {:?})", sel),
+        BOp::BeginFunction | BOp::BeginFunctionId(_) => format!("a function is open (selection {:?})", sel),
         BOp::EndFunction | BOp::FunctionParameter => "no function is open".to_string(),
         BOp::BeginBlock | BOp::BeginBlockNoLabel | BOp::BeginBlockId(_) => format!("no function is open or a block is open (selection {:?})", sel),
         _ => format!("no block is selected (selection {:?})", sel),
